@@ -86,7 +86,7 @@ def plan(run):
     # (and more than one block along the crossline AND the sample axis: the order in which a plane set's blocks are queued)
     segy_shapes = [(5, 6, 70), (9, 4, 33), (8, 5, 20), (16, 3, 9), (4, 4, 8), (6, 11, 40)] if quick else [(5, 6, 70), (9, 4, 33), (4, 4, 64), (2, 2, 2), (13, 9, 130), (8, 8, 8), (8, 5, 20), (16, 3, 9), (12, 7, 9), (24, 2, 5), (6, 11, 40), (5, 19, 70)]
     for shape in segy_shapes:
-        for rate, bs in ((16, None), (32, (8, 8, 16)), (8, (4, 4, -1)), (32, (4, 8, 32))):
+        for rate, bs in ((16, None), (32, (8, 8, 16)), (8, (4, 4, -1)), (32, (4, 8, 32)), (32, (16, 16, 4)), (16, (8, 4, -1))):
             for route, opts in (('segy', {'fmt': 5}), ('segy', {'fmt': 1}), ('segy-iops', {'fmt': 5}), ('segy-iops', {'fmt': 1}),
                                 ('segy', {'fmt': 5, 'ext': 1}), ('segy-iops', {'fmt': 5, 'ext': 2}), ('cli', {'fmt': 5}),
                                 ('segy', {'fmt': 1, 'sort': 'xl'}), ('segy-iops', {'fmt': 5, 'sort': 'xl'})):     # crossline-sorted sources
